@@ -81,8 +81,49 @@ def atoms_of(t: ast.expr) -> list[str]:
     return [render(t)]
 
 
+def reader_hands_every_record_on(ctx, RULE, P) -> None:
+    """One layer below the buffer: on every path of the per-record loop of Inotify.read_events that goes on to the next record
+    (normally or by `continue`) the record just decoded is added to the returned list exactly once -- also on the paths that absorb
+    a failed add-watch.  Overflow records (wd == -1) carry no event and are skipped."""
+    from ..model import returned_name
+    from ..reader import flag_kind, record_paths
+
+    rf = P.find_method("Inotify", "read_events")
+    if rf is None or returned_name(rf.node) is None:
+        raise AnalysisError("read_events: returned list not identified")
+    out = returned_name(rf.node)
+    bp, _L, fi, _all = record_paths(P, fault=True, key_errors=False)
+    per_kind: dict[str, list] = {}
+    for p in bp:
+        if p.outcome is not NORMAL and p.outcome[0] != "continue":
+            continue
+        if p.conds().get("wd == -1") is True:
+            continue
+        n = 0
+        for e in p.evs:
+            if e.kind == "call" and e.extra.get("func") in (out + ".append", out + ".extend", out + ".insert"):
+                t = e.extra.get("term")
+                for a in ast.walk(t) if t is not None else ():
+                    if isinstance(a, ast.Call) and isinstance(a.func, ast.Name) and a.func.id == "InotifyEvent" and [render(x) for x in a.args[:4]] == ["wd", "mask", "cookie", "name"]:
+                        n += 1
+        per_kind.setdefault(flag_kind(p), []).append((n, p))
+    if not per_kind:
+        raise AnalysisError("read_events: no per-record path goes on to the next record")
+    for kind, lst in sorted(per_kind.items()):
+        bad = [(n, p) for n, p in lst if n != 1]
+        ctx.check(
+            not bad,
+            RULE,
+            f"read_events kind={kind}: the record is added to `{out}` exactly once on each of {len(lst)} path(s)",
+            bad and f"on a path that goes on to the next record [{bad[0][1].sig()[-160:]}] the record is added {bad[0][0]} time(s): a notification read from the kernel is {'lost before the buffer sees it (its partner half then waits out the delay alone)' if bad[0][0] == 0 else 'handed on more than once'}" or "",
+            fi.loc,
+        )
+
+
 def run(ctx) -> None:
     P = ctx.P
+    RRD = ctx.rule("C08/reader-hands-every-record-on", "on every path of the per-record loop of Inotify.read_events that goes on to the next record, the record just decoded is added to the returned list exactly once (overflow records excepted), also where a failed add-watch is absorbed", floor=4)
+    reader_hands_every_record_on(ctx, RRD, P)
     RP = ctx.rule("C08/placed-exactly-once", "on every path of the grouping loop the current record is placed in the output exactly once: alone, or as second half of a pair whose first half is replaced in place at its index or pulled out of the delay queue", floor=4)
     RQ = ctx.rule("C08/put-exactly-once", "every grouped element reaches exactly one put on the delay queue, except watch-removed markers; the delay flag is true exactly for a non-tuple MOVED_FROM", floor=4)
     RM = ctx.rule("C08/partner-predicate", "the predicate handed to the queue search accepts exactly a non-tuple MOVED_FROM whose cookie equals the current record's (the in-batch search is decided per path under placed-exactly-once)", floor=1)
